@@ -116,6 +116,7 @@ class Checker:
 
 def _draw_universe(self, data, cfg):
     base = data.draw(vs.universe(2, 5, 24), label="universe")
+    base = base + [data.draw(vs.biased_bytes(32, 80), label="long_key")]  # >= 4 full blocks: a separate hashing path
     p, seed = cfg["p"], cfg["seed"]
     m = 1 << p
     idxs = data.draw(st.lists(st.sampled_from([0, 1, m // 2, m - 1]), min_size=1, max_size=2, unique=True), label="idxs")
